@@ -821,6 +821,9 @@ pub fn replay(case: &J) -> Vec<Viol> {
             crate::e1c::c14_compare(kind, &path, &cont, adapt_lhs).into_iter().collect()
         }
         Some("c08b") => crate::e1c::replay_c08b(case),
+        Some("giant_in_frame") => {
+            return crate::e1c::giant_in_frame().into_iter().map(|(class, what)| Viol { class, key: "Vec:in-frame 2^32+5".into(), what, case: case.clone(), size: 5 }).collect();
+        }
         Some("c14split") => {
             let b = case.get("bytes").and_then(|b| b.as_str()).and_then(crate::json::unhex).unwrap_or_default();
             let k = (case.get("split").and_then(|k| k.as_i()).unwrap_or(0) as usize).min(b.len());
